@@ -1,4 +1,8 @@
+#[cfg(not(excsn_fibre_verif))]
 use parking_lot::Mutex;
+// Verification seam H9: the same parking_lot mutex, reporting acquire/release to the lock hook.
+#[cfg(excsn_fibre_verif)]
+use crate::verif::PointMutex as Mutex;
 use std::collections::VecDeque;
 use std::future::Future;
 use std::pin::Pin;
